@@ -176,7 +176,7 @@ def run(ctx):
     p = Prov(we)
     aggs = [(b, s) for b, i, s, a, v in mir.aggregates(we, None, "interpreter::interpreter::Interpreter")]
     if len(aggs) != 1:
-        ctx.report("C19-own-state", "shape", "with_environment does not build exactly one Interpreter", where_of(we))
+        ctx.undecided("C19-own-state", "shape", "with_environment does not build exactly one Interpreter", where_of(we))
     else:
         b, s = aggs[0]
         fields = [x["name"] for x in fb.adt("interpreter::interpreter::Interpreter")["variants"][0]["fields"]]
@@ -188,15 +188,19 @@ def run(ctx):
             tls = [r for r in p.op_roots(o) if r[0] == "tls"]
             ok = not tls and all(any(c.endswith(x) or x in c for x in FRESH) for c in cr) and (ar <= {1})
             ctx.inst("C19-own-state", "field/" + name, {"from_calls": sorted(cr), "from_params": sorted(ar)})
-            if not ok:
-                ctx.report("C19-own-state", "field/" + name, "Interpreter.%s is initialised from %s / parameters %s (not a fresh "
-                           "per-instance value)" % (name, sorted(cr), sorted(ar)), where_of(we, span=s["span"]))
+            if tls:
+                ctx.report("C19-own-state", "field/" + name, "Interpreter.%s is initialised from thread-local / static state (%s): every "
+                           "instance of the thread shares it" % (name, tls), where_of(we, span=s["span"]))
+            elif not ok:
+                # built by other functions of the crate (a helper, a fold over a list of factories ...): nothing says it is shared
+                ctx.undecided("C19-own-state", "field/" + name, "Interpreter.%s is initialised from %s / parameters %s: not recognisably a fresh "
+                              "per-instance value" % (name, sorted(cr), sorted(ar)), where_of(we, span=s["span"]))
         # any Rc-typed field must not come from a thread-local directly; create_syntax_binding is judged by the census above
     dflt = fb.find("<interpreter::interpreter::Interpreter as std::default::Default>::default")
     news = [callee(t) for _, t in dflt.calls()]
     ctx.inst("C19-own-state", "default", [n.rsplit("::", 1)[-1] for n in news if n])
     if "environment::LexicalScope::new" not in news or we.name not in news:
-        ctx.report("C19-own-state", "default/env", "Interpreter::default does not create a fresh root environment", where_of(dflt))
+        ctx.undecided("C19-own-state", "default/env", "Interpreter::default does not create a fresh root environment", where_of(dflt))
 
     # ------------------------------------------------------------------ C19-construction-total
     ctx.rule("C19-construction-total", "creating an instance cannot fail because of what other instances did")
